@@ -38,6 +38,37 @@ if [ "$ENGINE" = s2 ]; then
   for f in $S2FILES; do [ -f "/repo/$f" ] && files="$files /repo/$f"; done
   (cd /verif/cmd/yieldgen && "$GO" run main.go "$B/inst" $files) > "$B/inst/sites.txt"
 fi
+# xsync hashes keys with hash/maphash, whose result depends on per-process random AES keys:
+# bucket order (and with it Range order and every schedule that yields inside a Range callback)
+# would differ between processes. The module cache may not be overlaid, so the copied go.mod
+# gets a replace directive pointing at a patched copy in which only the key hash is FNV-1a.
+XS=$(cd /repo && "$GO" list -m -modfile="$B/go.mod" -f '{{.Dir}}' github.com/puzpuzpuz/xsync/v4 2>/dev/null || true)
+if [ -n "$XS" ] && [ -f "$XS/map.go" ] && grep -q 'maphash.Comparable(' "$XS/map.go"; then
+  rm -rf "$B/xsync"; mkdir -p "$B/xsync"
+  cp -r "$XS"/. "$B/xsync/"; chmod -R u+w "$B/xsync"; rm -f "$B/xsync"/*_test.go
+  sed -i 's/maphash\.Comparable(/verifDetHash(/g' "$B/xsync/map.go"
+  cat > "$B/xsync/verif_dethash.go" <<'XSEOF'
+package xsync
+
+import "hash/maphash"
+
+// verifDetHash: deterministic replacement for maphash.Comparable (simulation builds only).
+func verifDetHash[K comparable](seed maphash.Seed, k K) uint64 {
+	if s, ok := any(k).(string); ok {
+		h := uint64(14695981039346656037)
+		for i := 0; i < len(s); i++ {
+			h = (h ^ uint64(s[i])) * 1099511628211
+		}
+		h ^= h >> 29
+		h *= 0xBF58476D1CE4E5B9
+		h ^= h >> 32
+		return h
+	}
+	return maphash.Comparable(seed, k)
+}
+XSEOF
+  echo "replace github.com/puzpuzpuz/xsync/v4 => $B/xsync" >> "$B/go.mod"
+fi
 python3 - "$B" "$ENGINE" <<'PY'
 import json,os,sys
 B,engine=sys.argv[1],sys.argv[2]
